@@ -16,7 +16,9 @@ RULE = ('case i: seeded constant expressions (depth <= 5) over + - * / % compari
         '+ -, and the casts is int/byte/bool, with boundary literals, const locals and const globals as '
         'leaves (optionally some run-time leaves from argv, so that only part of the tree can be evaluated '
         'in advance); 12% of the cases are `K ?? noisy(v)` programs with a constant left operand, 8% index '
-        'constant strings with constant (also negative / too large) indices; const byte variables are also '
+        'constant strings with constant (also negative / too large) indices, 12% put a constant (literal, folded, const '
+        'variable) next to an operand with an effect - a printing call, a division that may fault - under and/or, '
+        'arithmetic and comparisons, in value / branch / !truth_is_defeat / declaration position; const byte variables are also '
         'initialised from out-of-range int constants. Each program is compiled twice: as written, and as its run-time twin in which every '
         'literal and const variable is a non-const local holding the same value. Word sizes {2,3,4}. '
         'oracle: both forms must commit the reference history; a compile-time rejection of the constant '
@@ -307,6 +309,112 @@ def spec_programs(rnd, W):
     return const_form, twin, [], [], g
 
 
+def partial_programs(rnd, W):
+    """A compile-time constant next to an operand with an effect (a call that prints, a division that may
+    fault): whatever the constant allows the compiler to conclude about the result (x * 0, x and false,
+    true or x, x % 1 ...), the other operand must still be evaluated exactly as in the run-time twin -
+    and must not be evaluated where the twin short-circuits."""
+    noisy = func('int', 'noisy', [('int', 'a')], write(C('(')), write(V('a')), write(C(')')),
+                 ret(bin_('+', V('a'), I(1))))
+    body_c, body_t, decls_t = [], [], [decl('int', 'z', I(rnd.choice((0, 0, 1, 3))))]
+    body_c.append(decl('int', 'z', decls_t[0][3]))
+    for k in range(rnd.randrange(1, 4)):
+        a = rnd.randrange(-2, 4)
+
+        def impure_int():
+            c = rnd.randrange(4)
+            if c == 0:
+                return bin_('/', I(10), V('z'))
+            if c == 1:
+                return bin_('+', call('noisy', I(a)), I(1))
+            return call('noisy', I(a))
+
+        def impure_bool():
+            c = rnd.randrange(5)
+            if c == 0:
+                return bin_(rnd.choice(('>', '==', '<=')), impure_int(), I(rnd.randrange(0, 3)))
+            if c == 1:
+                return is_(impure_int(), 'bool')
+            if c == 2:
+                return ('un', 'not', bin_('==', call('noisy', I(a)), I(3)))
+            if c == 3:
+                return bin_('>', bin_('/', I(10), V('z')), I(0))
+            return bin_('!=', call('noisy', I(a)), I(0))
+        kind = rnd.randrange(4)
+        if kind == 3:
+            # a constant as the whole condition of if / while / for: statements after the construct
+            # (and the right branch) run exactly as with a run-time condition of the same value
+            val = rnd.random() < 0.4
+            lits = [B(val), bin_('<', I(1), I(2)) if val else bin_('>', I(1), I(2)), ('un', 'not', B(not val)),
+                    is_(I(7 if val else 0), 'bool')]
+            form = rnd.randrange(5)
+            if form < 4:
+                const_e = lits[form]
+            else:
+                const_e = V(f'kc{k}')
+                body_c.append(decl('bool', f'kc{k}', lits[0], True))
+            decls_t.append(decl('bool', f'tv{k}', lits[0]))
+            shape = rnd.randrange(4)
+            for e, body in ((const_e, body_c), (V(f'tv{k}'), body_t)):
+                if shape == 0:
+                    body += [if_(e, block(write(C('T')), ex(call('noisy', I(a)))), block(write(C('F')))), write(C(';'))]
+                elif shape == 1:
+                    # (a constant-true loop needs its break; a constant-false one is also tried without)
+                    tail = [] if (not val and a % 2 == 0) else [('break',)]
+                    body += [while_(e, write(C('L')), ex(call('noisy', I(a))), *tail), write(C('a')), write(C(';'))]
+                elif shape == 2:
+                    body += [('for', decl('int', f'i{k}', I(0)), bin_('and', e, bin_('<', V(f'i{k}'), I(2))),
+                              aug('+', f'i{k}', I(1)), block(write(V(f'i{k}')))), write(C('a')), write(C(';'))]
+                else:
+                    body += [if_(e, block(write(C('T')))), while_(('un', 'not', e), write(C('N')), ('break',)), write(C(';'))]
+            continue
+        if kind == 0:
+            op = rnd.choice(('and', 'or'))
+            val = rnd.random() < 0.5
+            t = 'bool'
+            other = impure_bool()
+            lits = [B(val), bin_('<', I(1), I(2)) if val else bin_('>', I(1), I(2)), ('un', 'not', B(not val))]
+        elif kind == 1:
+            op = rnd.choice(('+', '-', '*', '*', '/', '%', '%'))
+            val = rnd.choice((0, 0, 1, 1, -1, 2))
+            t = 'int'
+            other = impure_int()
+            lits = [I(val), bin_('-', I(val + 3), I(3)), bin_('*', I(val), I(1))]
+        else:
+            op = rnd.choice(('==', '!=', '<', '<=', '>', '>='))
+            val = rnd.choice((0, 1, -1, 2))
+            t = 'int'
+            other = impure_int()
+            lits = [I(val), bin_('-', I(val + 3), I(3)), bin_('*', I(val), I(1))]
+        form = rnd.randrange(4)
+        if form < 3:
+            const_e = lits[form]
+        else:
+            const_e = V(f'kc{k}')
+            body_c.append(decl(t, f'kc{k}', lits[0], True))
+        decls_t.append(decl(t, f'tv{k}', lits[0]))
+        left = rnd.random() < 0.5
+        ec = bin_(op, const_e, other) if left else bin_(op, other, const_e)
+        et = bin_(op, V(f'tv{k}'), other) if left else bin_(op, other, V(f'tv{k}'))
+        pos = rnd.randrange(4)
+        for e, body in ((ec, body_c), (et, body_t)):
+            if pos == 0:
+                body += [write(e), write(C(';'))]
+            elif pos == 1:
+                cond = e if (kind != 1) else bin_('!=', e, I(0))
+                body += [if_(cond, block(write(C('T'))), block(write(C('F')))), write(C(';'))]
+            elif pos == 2:
+                cond = e if (kind != 1) else is_(e, 'bool')
+                body += [try_(block(ex(call('!truth_is_defeat', cond)), write(C('n'))), 'undo', block(write(C('d')))), write(C(';'))]
+            else:
+                body += [decl('int' if kind == 1 else 'bool', f'r{k}', e), write(V(f'r{k}')), write(C(';'))]
+    const_form = prog([], [noisy, func('empty', '@is_you', [], *body_c)])
+    twin = prog([], [noisy, func('empty', '@is_you', [], *(decls_t + body_t))])
+    g = Gen14(rnd, W, 0.0)
+    g.ifs = []
+    return const_form, twin, [], [], g
+
+
 def strindex_programs(rnd, W):
     """constant index into a constant string: folding it (or not) must not change what
     happens, including out_of_bounds for negative and too large indices"""
@@ -341,6 +449,8 @@ def make_programs(rnd, W):
         return spec_programs(rnd, W)
     if c0 < 0.2:
         return strindex_programs(rnd, W)
+    if c0 < 0.32:
+        return partial_programs(rnd, W)
     g = Gen14(rnd, W, p_runtime=rnd.choice((0.0, 0.0, 0.25)))
     exprs = []
     for _ in range(rnd.randrange(1, 5)):
